@@ -30,9 +30,13 @@
       from_kvarn_cache_control (integer * multiplier; RESPONSE header,
         not client input)                                               CacheControl             kvarn_cache_control_unchecked_never_panics,
                                                                                                  kvarn_cache_control_checked_refuted (known class)
+      handle_cache: if-modified-since (time crate's parser, creation - 1 s)  Ims.ims_fresh        if_modified_since_never_panics, _rule,
+                                                                                                 if_modified_since_plus_variant_refuted
+      stream_body: the whole loop (pos += read, &buf[..buf_end])        Panics.stream_loop       stream_body_never_panics
       is_part_of_origin / check_cors_request                            Cors (total functions)   stage of request_path
       http, time, moka, tokio, compressors, other extensions            not modelled             exploration run only *)
-From KV Require Import Bytes RustInt RustStd Panics PanicsProofs.
+From Coq Require Import ZArith.
+From KV Require Import Bytes RustInt RustStd Panics PanicsProofs Ims ImsProofs.
 From KV Require PathSan PathSanProofs Range RangeProofs RangeConn RangeConnProofs Http1Read Hosts HostsProofs
   Negotiate ListHeaderProofs Limiter LimiterProofs Nonce NonceProofs PresentLine PresentLineProofs CacheControl Cors.
 Open Scope N_scope.
@@ -69,6 +73,30 @@ Proof. exact PathSanProofs.request_fs_path_no_panic. Qed.
 Theorem list_header_never_panics : forall (parse_q : bytes -> option Negotiate.qclass) (h : bytes),
   exists l, Negotiate.list_header parse_q h = l /\ (length l <= S (ListHeaderProofs.commas h))%nat.
 Proof. intros parse_q h. eexists. split; [reflexivity|apply ListHeaderProofs.list_header_length_l]. Qed.
+
+(** [If-Modified-Since] on a cache hit ([handle_cache]): [to_str], the [time] crate's parser for [HTTP_DATE]
+    (fixed-width fields, names from fixed lists, literals, nothing after " GMT", the date must exist) and
+    [timestamp >= creation - 1.seconds()].  The only arithmetic is on the entry's creation time (the server's
+    clock), so NO header value can panic it — as long as the entry was not made in the first second of the year
+    -9999.  [creation] is the instant (seconds from 1970) the entry was made. *)
+Theorem if_modified_since_never_panics : forall (creation : Z) (hdr : option bytes),
+  (odt_min + 1 <= creation <= odt_max)%Z -> ims_fresh false creation hdr <> Panic.
+Proof. exact ims_fresh_no_panic. Qed.
+
+(** What it decides: "not modified" exactly for a value that is text, is an HTTP date and is not older than the
+    entry's creation minus one second; otherwise the page. *)
+Theorem if_modified_since_rule : forall (creation : Z) (hdr : option bytes),
+  (odt_min + 1 <= creation <= odt_max)%Z ->
+  (ims_fresh false creation hdr = Ok true <->
+   exists v ts, hdr = Some v /\ Http1Read.hv_to_str_ok v = true /\ parse_http_date v = Some ts /\ (creation - 1 <= ts)%Z) /\
+  (ims_fresh false creation hdr = Ok true \/ ims_fresh false creation hdr = Ok false).
+Proof. exact ims_fresh_spec. Qed.
+
+(** The equivalent-looking rewrite [timestamp + 1.seconds() >= creation] does its arithmetic on the CLIENT's date:
+    "Fri, 31 Dec 9999 23:59:59 GMT" panics the connection task on every cache hit, whenever the entry was made. *)
+Theorem if_modified_since_plus_variant_refuted : forall creation : Z,
+  ims_fresh true creation (Some last_second) = Panic.
+Proof. exact ims_plus_variant_panics. Qed.
 
 Theorem query_never_panics : forall q : bytes, query q <> Panic.
 Proof. exact query_no_panic. Qed.
@@ -109,6 +137,19 @@ Proof. exact stream_window_no_panic. Qed.
 Theorem stream_chunk_never_panics : forall (checked : bool) (pos read end_ : N),
   pos < end_ -> pos + read <= u64_max -> stream_chunk checked pos read end_ <> Panic.
 Proof. exact stream_chunk_no_panic. Qed.
+
+(** The whole of [stream_body]: for every Range header [sanitize_request] accepts, every file length and every
+    sequence of results of [file.read] (each at most the 64 KiB buffer; file offsets stay below 2^63, as the
+    kernel keeps them) the loop ends without panic — [pos += read], [read - (pos - end)], [&buf[..buf_end]]
+    included —, never sends more than the announced [content-length], and sends exactly it when the file
+    delivers that much.  The hypotheses of [stream_chunk_never_panics] are invariants of the loop. *)
+Theorem stream_body_never_panics : forall (checked : bool) (hdr : option bytes) (range : option (N * N)) (file_len : N)
+    (reads : list N) (start end_ len : N),
+  Range.sanitize_range hdr = Ok range -> stream_window checked range file_len = Ok (start, end_, len) ->
+  Forall (fun r => r <= stream_buf) reads -> start + nsum (live_reads reads) <= 9223372036854775807 ->
+  exists sent, stream_loop checked start end_ reads = Ok sent /\
+               nsum sent = N.min len (nsum (live_reads reads)) /\ nsum sent <= len.
+Proof. exact stream_body_no_panic. Qed.
 
 (** ** Served files that start with an extension line (not request bytes; part of the property's text) *)
 
@@ -195,5 +236,22 @@ Example ex_closed :
 Proof. vm_compute. reflexivity. Qed.
 Example ex_get_last : query_script false (B "a=1&b=2&a=3") (B "a") [true; false; false] = Ok [Some (B "3"); Some (B "1"); None].
 Proof. vm_compute. reflexivity. Qed.
+(** A date in the past: the page; the same date a few hundred years on: not modified; a day that does not exist,
+    a 61st second, a fifth digit in the year, a lower-case month: no date at all. *)
+Example ex_ims :
+  ims_fresh false 1790000000 (Some (B "Tue, 27 Jul 2021 14:08:15 GMT")) = Ok false /\
+  ims_fresh false 1790000000 (Some (B "Fri, 27 Jul 2421 14:08:15 GMT")) = Ok true /\
+  ims_fresh false 1790000000 (Some (B "Xxx, 27 Jul 2421 14:08:15 GMT")) = Ok false /\
+  parse_http_date (B "Mon, 27 Jul +2421 14:08:15 GMT") = parse_http_date (B "Fri, 27 Jul 2421 14:08:15 GMT") /\
+  parse_http_date (B "Thu, 01 Jan 1970 00:00:00 GMT") = Some 0%Z /\
+  parse_http_date (B "Tue, 31 Jun 2021 00:00:00 GMT") = None /\ parse_http_date (B "Tue, 27 Jul 2021 23:59:60 GMT") = None /\
+  parse_http_date (B "Tue, 27 Jul 99999 14:08:15 GMT") = None /\ parse_http_date (B "Tue, 27 jul 2021 14:08:15 GMT") = None /\
+  parse_http_date (B "Sat, 29 Feb 2020 12:00:00 GMT") = Some 1582977600%Z /\ parse_http_date (B "Mon, 29 Feb 2100 12:00:00 GMT") = None.
+Proof. vm_compute. repeat split. Qed.
 Example ex_stream_window : stream_window true (Some (2, 6)) 10 = Ok (2, 6, 4).
 Proof. vm_compute. reflexivity. Qed.
+(** A 70000-byte file, the window 65535..65537 straddles the first buffer: two reads, chunks of 1 and 1 byte. *)
+Example ex_stream_loop : stream_loop true 65535 65537 [1; 4464; 0] = Ok [1; 1]
+  /\ stream_reply true (Some (65535, 65537)) 70000 = Ok (2, 2) /\ stream_reply true None 200000 = Ok (200000, 200000)
+  /\ stream_reply true (Some (5, 2001)) 1000 = Ok (1996, 995).
+Proof. vm_compute. repeat split. Qed.
